@@ -207,6 +207,9 @@ func runC01(c *Ctx) {
 		return b
 	}
 	rtCase := func(gen string, p *profile.Profile, nt bool) {
+		if p.CheckValid() != nil {
+			return
+		}
 		in := DumpProfile(p)
 		var obs Term
 		func() {
